@@ -18,9 +18,62 @@ def features(case, run, val):
 
 
 
+TEMPLATES = ['single', 'feeds', 'fed', 'fed_shifted']
+OFFENDER = ['time-based', 'hybrid', 'event-based']
+N_REPLY = 13
+N_DIRECTED = len(TEMPLATES) * len(OFFENDER) * 3 * N_REPLY * 2 * 2
+
+
+def directed_case(idx):
+    """systematic part: topology template x type of the offending simulator x step index of the malformed reply x reply kind
+    x API version announced by the offender (current / older, i.e. behind the version adapters) x World(debug)"""
+    tpl, idx = TEMPLATES[idx % len(TEMPLATES)], idx // len(TEMPLATES)
+    typ, idx = OFFENDER[idx % 3], idx // 3
+    at, idx = idx % 3, idx // 3
+    rk, idx = idx % N_REPLY, idx // N_REPLY
+    old, idx = idx % 2, idx // 2
+    dbg = idx % 2
+    until = 6
+    tt = at                                      # the offender steps at 0, 1, 2, ... (self-steps every time unit)
+    replies = [tt, tt - 1, 0 if tt else -3, -1, 'float:1.5', 'soon', None, True, False, f'float:{tt + 1.5}', f'float:{tt + 2.25}', f'float:{tt + 1}.0',
+               ('time', tt - 1)]
+    rep = replies[rk]
+    def sim(t):
+        if t == 'time-based': return {'type': t, 'step_size': 1, 'default_output': [None, ['po']]}
+        attrs = ['eo'] if t == 'event-based' else ['po', 'eo']
+        return {'type': t, 'self_steps': {str(x): x + 1 for x in range(until)}, 'default_output': [None, attrs]}
+    types = [typ]; beh = [sim(typ)]; edges = []; init = [[0, 0]] if typ == 'event-based' else []
+    src = {'time-based': 'po', 'hybrid': 'po', 'event-based': 'eo'}
+    if tpl == 'feeds':            # the offender feeds a consumer
+        types.append('hybrid'); beh.append(sim('hybrid'))
+        edges.append(dict(a=0, b=1, sa=src[typ], da='ti', kind='p', shift=0, init=False))
+    elif tpl in ('fed', 'fed_shifted'):   # the offender is fed (and, unless time-based, triggered) by a producer
+        types.append('time-based'); beh.append(sim('time-based'))
+        ts = tpl == 'fed_shifted'
+        da = 'i' if typ == 'time-based' else 'ti'
+        edges.append(dict(a=1, b=0, sa='po', da=da, kind='ts' if ts else 'p', shift=1 if ts else 0, init=bool(ts and da == 'i')))
+    if isinstance(rep, tuple):
+        kind, val = 'time', rep[1]
+        if not any(e['a'] == 0 for e in edges):      # an output time needs a connected output: let it feed a consumer
+            types.append('hybrid'); beh.append(sim('hybrid'))
+            edges.append(dict(a=0, b=len(types) - 1, sa=src[typ], da='ti', kind='p', shift=0, init=False))
+    else:
+        kind, val = 'step', rep
+    beh[0].setdefault('bad', {})[f'{tt},0'] = [kind, val]
+    if old: beh[0]['api_version'] = '2.2'
+    n = len(types)
+    case = dict(n=n, types=types, grp=[[] for _ in range(n)], edges=edges, until=until, beh=beh, init=init, maxloop=100, malformed=[0, tt, kind, val])
+    if dbg: case['debug'] = True
+    return case
+
+
 def case_gen(rng, k):
+    if k % 3:
+        # two thirds: the systematic family, visited with a stride that is coprime to its size
+        j = k - k // 3 - 1
+        return directed_case((j * 389) % N_DIRECTED)
     case = gen.gen_case(rng, groups=True, malformed=True)
-    if k % 3 == 2: case['debug'] = True        # World(debug=True): the scheduler's step/get_outputs are wrapped by mosaik._debug
+    if k % 9 == 3: case['debug'] = True        # World(debug=True): the scheduler's step/get_outputs are wrapped by mosaik._debug
     return case
 
 
@@ -32,7 +85,7 @@ def run(out, info, tier, seed):
         'theorem premise static_ok (shape facts; the ancestors table dominates every trigger path) is checked per scenario by comparing the model-built tables with the implementation, not yet discharged by a closure theorem']
     out.assumptions = ['simulators are an oracle: any reply sequence (event list); delays that are compared have equal shape (convex group scenarios)']
     sched_check.sched_property(out, info, tier, seed, 'C13', KINDS, monitors.P_C13, gen_opts={'groups': True, 'malformed': True}, case_gen=case_gen,
-                               ncases=(110, 1500), variants=[(True, True), (False, False)], nontrivial=nontrivial, features=features,
+                               ncases=(330, 4500), variants=[(True, True), (False, False)], nontrivial=nontrivial, features=features,
                                known_match=None, hyp=None,
                                extra_obligations=[('Sched.Inv (invariant preserved by every event)', 'Sched/Inv'),
                                                   ('Sched.Guards / Sched.Final', 'Sched/Final')])
